@@ -445,11 +445,18 @@ class Samples(BaseSamples):
     def __post_init__(self):
         super().__post_init__()
 
+        log_evidence = self.log_evidence
+        log_evidence_error = self.log_evidence_error
         if all(
             x is not None
             for x in [self.log_likelihood, self.log_prior, self.log_q]
         ):
             self.compute_weights()
+            if log_evidence is not None:
+                # Evidence passed in explicitly (carried over by a selection,
+                # a conversion or a round trip) is kept, not recomputed
+                self.log_evidence = log_evidence
+                self.log_evidence_error = log_evidence_error
         else:
             self.log_w = None
             self.weights = None
